@@ -1,53 +1,155 @@
 import Sigc.Model
-import Sigc.Lemmas.Basic
-import Sigc.Lemmas.Frames
+import Sigc.Spec
+import Sigc.Lemmas.InvBal2
 /-!
 # C06 — library objects can be destroyed in any order without dangling access
-(first theorems: what each destruction unlinks; the all-history invariants are in Sigc/Lemmas/Inv*.lean)
+
+Model-level content (mechanism model `P`): the objects refer to each other through
+`Handle.impl` (signal object → `signal_impl`), `Option cellId` (connection → cell), `Fun.tracks`
+(rep → trackable object), `holders` (running emission → `signal_impl`).  Proved here for every
+fuel, program and history, i.e. for every order of destructions with arbitrary operations in between:
+
+* `any_order` — the conjunction `AllInv` of the link invariants (identities unique, no handle refers to a
+  destroyed impl, no connection refers to an erased cell, no rep refers to a destroyed trackable, no impl
+  without an owner) is preserved by every list of operations, in particular by every permutation of
+  destructor operations interleaved with anything else; it holds initially.
+* `balance` / `no_orphan_impl` — at every quiescent point every `signal_impl` is owned by a live signal
+  object and no `signal_impl_holder` is outstanding; `balance_inside` is the form valid inside emissions
+  (ghost index = number of running emissions per impl).
+* `unlinked_*` — after either end of a link dies the survivor no longer mentions it.
 -/
 namespace Sigc.C06
-open Sigc.Model
+open Sigc.Model Sigc.Inv
 
-/-- destroying the last signal object of a list (no emission running) destroys the list: it is gone
-    from the state, and (`nullConnsList`) every connection into it has been nulled first -/
-theorem gcImpl_drops_unreferenced (s : St) (i : Nat) (im : Impl) (hi : aget s.impls i = some im)
-    (hh : im.holders = 0) (hg : s.G.any (fun p => p.2.impl = some i) = false) :
-    aget (gcImpl s i).impls i = none ∧ (gcImpl s i).S = s.S ∧ (gcImpl s i).G = s.G := by
-  unfold gcImpl
-  simp only [hi, hh, hg]
-  simp [nullConnsList_impls, nullConnsList_S, nullConnsList_G]
+/-- all link invariants of a quiescent state -/
+def AllInv (s : St) : Prop := Links s ∧ TL s ∧ Bal (fun _ => 0) s
 
-/-- a list that a signal object still refers to, or that an emission holds, survives -/
-theorem gcImpl_keeps_referenced (s : St) (i : Nat) (im : Impl) (hi : aget s.impls i = some im)
-    (h : im.holders > 0 ∨ s.G.any (fun p => p.2.impl = some i) = true) :
-    gcImpl s i = s := by
-  unfold gcImpl
-  simp only [hi]
-  rcases h with h | h
-  · have : ¬ im.holders = 0 := by omega
-    simp [this]
-  · simp [h]
+theorem allInv_init : AllInv {} := ⟨Links.init, TL.init, Bal.init⟩
 
-/-- destroying a connection variable touches nothing else (the slot stays connected) -/
-theorem delC_frame (s s' : St) (r : String) (i : Nat) (h : stepSimple s (.delC i) = some (s', r)) :
-    s'.impls = s.impls ∧ s'.S = s.S ∧ s'.G = s.G ∧ s'.T = s.T ∧ s'.K = s.K := by
-  simp only [stepSimple] at h
-  split at h <;> simp at h <;> obtain ⟨rfl, _⟩ := h <;> simp
+/-- every terminating run of every program ends in a state satisfying all link invariants -/
+theorem allInv_reachable (fuel : Nat) (P : Prog) (s : St) (h : runTop fuel P {} P.top = some s) : AllInv s :=
+  ⟨Links.reachable fuel P s h, (WTL.reachable fuel P s h).2, Bal.reachable fuel P s h⟩
 
-/-- destroying a slot variable touches no signal, connection or trackable, and no other slot variable -/
-theorem delS_frame (s s' : St) (r : String) (i : Nat) (h : stepSimple s (.delS i) = some (s', r)) :
-    s'.impls = s.impls ∧ s'.C = s.C ∧ s'.G = s.G ∧ s'.T = s.T ∧ s'.K = s.K ∧
-    ∀ k, k ≠ i → aget s'.S k = aget s.S k := by
-  simp only [stepSimple] at h
-  split at h
-  · simp at h; obtain ⟨rfl, _⟩ := h; simp
-  · split at h <;> simp at h <;> obtain ⟨rfl, _⟩ := h
-    · simp
-    · refine ⟨rfl, rfl, rfl, rfl, rfl, ?_⟩
-      intro k hk
-      exact aget_adel_other _ _ _ hk
+/-- **any order**: from a state satisfying the invariants, *any* further list of operations — in
+    particular the destructors `delT / delS / delG / delC / delK` of the live objects in any permutation,
+    with arbitrary operations (including emissions that destroy objects re-entrantly) in between — ends
+    in a state satisfying them again -/
+theorem any_order (fuel : Nat) (P : Prog) (s s' : St) (ls : List Line) (hs : AllInv s)
+    (h : runTop fuel P s ls = some s') : AllInv s' := by
+  obtain ⟨hl, ht, hb⟩ := hs
+  have hw : WF s := hl.1.1
+  refine ⟨Links.stable.runTop_from fuel P ls s s' hl h, ?_, ?_⟩
+  · exact (WTL.stable.runTop_from fuel P ls s s' ⟨hw, ht⟩ h).2
+  · exact (runTop_preserved WBal.stable fuel (fun _ => 0) P ls s s' ⟨hw, hb⟩ h).2
 
-example : aget (gcImpl { impls := [(3, { cells := [{ id := 4, slot := {}, linked := true }] })], C := [(0, some 4)] } 3).C 0 = some none := by
-  simp [gcImpl, aget, nullConnsList, nullConns, amap, adel]
+/-- the same through the harness teardown (which destroys scoped connections, connections, slots, signals
+    and trackables in that order) -/
+theorem any_order_teardown (fuel : Nat) (P : Prog) (s s' : St) (hs : AllInv s)
+    (h : teardown fuel P s = some s') : AllInv s' := by
+  obtain ⟨hl, ht, hb⟩ := hs
+  have hw : WF s := hl.1.1
+  exact ⟨Links.stable.teardown fuel P s s' hl h, (WTL.stable.teardown fuel P s s' ⟨hw, ht⟩ h).2,
+    Bal.teardown fuel P s s' hw hb h⟩
+
+/-- **balance**: at every quiescent point every `signal_impl` has no outstanding holder and is owned by a
+    live signal object; and every signal object's impl exists -/
+theorem balance (fuel : Nat) (P : Prog) (s : St) (h : runTop fuel P {} P.top = some s) :
+    (∀ i im, aget s.impls i = some im →
+        im.holders = 0 ∧ ∃ g hd, aget s.G g = some hd ∧ hd.impl = some i) ∧
+    (∀ g hd i, aget s.G g = some hd → hd.impl = some i → ∃ im, aget s.impls i = some im) := by
+  have hb := Bal.reachable fuel P s h
+  have hh := (Links.reachable fuel P s h).1.2
+  refine ⟨?_, fun g hd i hg hi => hh.get hg hi⟩
+  intro i im hi
+  obtain ⟨h1, h2⟩ := hb.2.1 i im hi
+  refine ⟨h1, ?_⟩
+  rcases h2 with e | e | e
+  · cases e
+  · exact absurd e (Nat.lt_irrefl 0)
+  · exact e
+
+/-- list form: every entry of `s.impls` (no shadowed entries: keys are unique) -/
+theorem no_orphan_impl (fuel : Nat) (P : Prog) (s : St) (h : runTop fuel P {} P.top = some s) :
+    ∀ p ∈ s.impls, p.2.holders = 0 ∧ ∃ g hd, aget s.G g = some hd ∧ hd.impl = some p.1 := by
+  intro p hp
+  have hw := (Links.reachable fuel P s h).1.1
+  exact (balance fuel P s h).1 p.1 p.2 (aget_of_mem hw.keys hp)
+
+/-- inside emissions: with `h i` = number of emissions running on impl `i`, `holders = h i` and every impl
+    is owned by a running emission or a live signal object — preserved by every operation, emission and
+    functor invocation (the emission prologue/epilogue change the index) -/
+theorem balance_inside (fuel : Nat) (P : Prog) (s : St) (op : Op) (r : St × Except Unit String)
+    (k : Nat → Nat) (hw : WF s) (hb : Bal k s) (h : execOp fuel P s op = some r) : WF r.1 ∧ Bal k r.1 :=
+  execOp_preserved WBal.stable (k := k) ⟨hw, hb⟩ h
+
+theorem balance_inside_emit (fuel : Nat) (P : Prog) (s : St) (fl : Flavour) (impl : Option Nat) (arg : Nat)
+    (strat : Strat) (r : St × Outcome × Nat) (k : Nat → Nat) (hw : WF s) (hb : Bal k s)
+    (h : emitImpl fuel P s fl impl arg strat = some r) : WF r.1 ∧ Bal k r.1 :=
+  emitImpl_preserved WBal.stable (k := k) ⟨hw, hb⟩ h
+
+/-- the last reference goes away ⇒ the impl goes away: `gcImpl` leaves the invariant intact when one
+    reference to `i` has just been dropped -/
+theorem gc_settles (k : Nat → Nat) (s : St) (i : Nat) (h : BalW k (some i) s.impls s.G s.next) :
+    Bal k (gcImpl s i) := BalW.gcImpl h
+
+/-- **unlinked (signal dies first)**: when `gcImpl` destroys an impl, no connection, scoped connection or
+    owned scoped connection mentions any of its cells any more, and no handle mentions the impl -/
+theorem unlinked_signal_first (s : St) (i : Nat) (hl : Links s) :
+    Links (gcImpl s i) ∧
+    (∀ im, aget s.impls i = some im → aget (gcImpl s i).impls i = none →
+      ∀ c ∈ im.cells, ∀ k, aget (gcImpl s i).C k ≠ some (some c.id) ∧ aget (gcImpl s i).K k ≠ some (some c.id)) := by
+  have hl' : Links (gcImpl s i) := Links.stable.gc s i trivial hl
+  refine ⟨hl', ?_⟩
+  intro im hi hn c hc k
+  have hw := hl.1.1
+  have hw' := hl'.1.1
+  -- a pointer to `c.id` in the new state would have to resolve, but the only impl holding that id is gone
+  have key : ¬ CellIn (gcImpl s i).impls c.id := by
+    rintro ⟨j, jm, hj, d, hd, hde⟩
+    -- every impl of the new state is an impl of the old one
+    have hsub : aget s.impls j = some jm := by
+      unfold gcImpl at hj
+      rw [hi] at hj
+      simp only at hj
+      split at hj
+      · simp only [nullConnsList_impls] at hj
+        rw [aget_adel] at hj
+        split at hj
+        · cases hj
+        · exact hj
+      · exact hj
+    have : j = i := hw.cellU j i jm im d c hsub hi hd hc hde
+    subst this
+    rw [hn] at hj; cases hj
+  constructor
+  · intro hk; exact key (hl'.2.1.get hk c.id rfl)
+  · intro hk; exact key (hl'.2.2.1.get hk c.id rfl)
+
+/-- **unlinked (trackable dies first)**: `C02.invalidates_all`; **(slot/cell dies first)**: a rep holds
+    no back-pointer to the trackable in the model beyond `Fun.tracks`, which dies with the rep -/
+theorem unlinked_trackable_first {s : St} (hw : WF s) (o : Nat) : NoTrack o (invalidateTrackable s o) :=
+  invalidateTrackable_notrack hw o
+
+/-! ### examples -/
+
+/-- all invariants hold on the example state (a trackable, a bound user slot, a connected copy) after any
+    operation -/
+example (fuel : Nat) (P : Prog) (ls : List Line) (s' : St) (h : runTop fuel P {} ls = some s') :
+    AllInv s' := any_order fuel P {} s' ls allInv_init h
+
+/-- `sig0.connect(f1); sig1 = copy of sig0; destroy sig0; destroy sig1`: the list survives the first
+    destruction (owned by `sig1`) and is destroyed, with its cell and the connection nulled, by the second -/
+def exP : Prog :=
+  { bodies := [],
+    top := [⟨"newG 0 V", .newG 0 (some .V)⟩, ⟨"connfn 0 0 fn 1", .connfn 0 0 (.fn 1) false⟩,
+            ⟨"cpG 1 0", .cpG 1 0⟩, ⟨"delG 0", .delG 0⟩, ⟨"delG 1", .delG 1⟩] }
+
+example : ∃ s, runTop 3 exP {} exP.top = some s ∧ s.impls = [] ∧ aget s.C 0 = some none ∧ AllInv s := by
+  have h : ∃ s, runTop 3 exP {} exP.top = some s ∧ s.impls = [] ∧ aget s.C 0 = some none := by
+    simp [exP, runTop, execLine, execOp, stepSimple, aget, aset, adel, St.fresh, mkFun, specTaint, ensureImpl,
+      insertCell, setConn, setImpl, St.log, collect, collectN, modeRule, FSpec.isOwner, gcImpl, nullConnsList,
+      nullConns, amap, Flavour.isTrackable]
+  obtain ⟨s, hs, h1, h2⟩ := h
+  exact ⟨s, hs, h1, h2, allInv_reachable 3 exP s hs⟩
 
 end Sigc.C06
